@@ -99,7 +99,20 @@ type Raster struct {
 	OnDraw func(src image.Image)
 	// MaxAbs is the largest coordinate magnitude seen (NaN counts as +Inf).
 	MaxAbs float64
+	// Cap, when > 0, is an online bound on NMut: the call that exceeds it panics
+	// with ActivityCapExceeded, so that a producer whose rasterizer activity is
+	// not bounded by its input is stopped where the bound is crossed instead
+	// of being waited for.
+	Cap int
 }
+
+// DefaultCap bounds the calls a Raster accepts between two ResetLogs even when
+// no Cap is set: no workload of the checks comes within two orders of
+// magnitude of it, and a producer gone wild is stopped instead of waited for.
+const DefaultCap = 5_000_000
+
+// ActivityCapExceeded is the panic value of a Raster whose Cap was crossed.
+type ActivityCapExceeded struct{ Calls int }
 
 func (z *Raster) see(v ...float32) {
 	for _, x := range v {
@@ -124,6 +137,9 @@ func (z *Raster) ResetLog() {
 
 func (z *Raster) add(c RCall) {
 	z.NMut++
+	if (z.Cap > 0 && z.NMut > z.Cap) || z.NMut > DefaultCap {
+		panic(ActivityCapExceeded{z.NMut})
+	}
 	if !z.Discard {
 		z.Calls = append(z.Calls, c)
 	}
